@@ -21,7 +21,6 @@ import (
 	admissionv1 "k8s.io/api/admission/v1"
 	corev1 "k8s.io/api/core/v1"
 	metav1 "k8s.io/apimachinery/pkg/apis/meta/v1"
-	"k8s.io/apimachinery/pkg/runtime"
 
 	meshconfig "istio.io/api/mesh/v1alpha1"
 	"istio.io/istio/operator/pkg/render"
@@ -274,5 +273,3 @@ func decodePod(b []byte) (*corev1.Pod, error) {
 	}
 	return p, nil
 }
-
-var _ = runtime.RawExtension{}
